@@ -131,7 +131,7 @@ Proof.
   - rewrite G3. unfold i1. rewrite Hbl. reflexivity.
   - rewrite G3. unfold i1. rewrite Hbl. reflexivity.
   - exact Hb3.
-  - intros _. rewrite G3. unfold i1. rewrite Hbl. reflexivity.
+  - rewrite G3. unfold i1. rewrite Hbl. reflexivity.
   - intros x Hx Hc Ek Ei Hrow.
     destruct (inv_L _ _ _ _ H3 x Hx) as (_ & _ & Rx). unfold ok_reg in Rx. rewrite Ek, Ei in Rx.
     specialize (Rx Hc Hrow). change (cch s3 k) with (cch s2 k) in Rx. unfold registered in Rx.
@@ -529,23 +529,21 @@ Proof.
   destruct (fault s) as [n|]; [destruct (Nat.eqb n (length (log s)))|]; cbn [fst snd]; auto.
 Qed.
 
-Lemma cache_expire_run k id s :
-  exists c'', cache_expire cfg k id s = (Ret tt, with_caches s c'') /\
-    ((c'' = caches s /\ (c_present (cch s k) = false \/ doCache cfg = false)) \/
-     (c'' = tset k (c_with (cch s k) (assoc_remove id (c_strong (cch s k))) (assoc_remove id (c_weak (cch s k)))
-                           (c_count (cch s k)) (c_offset (cch s k))) (caches s) /\ doCache cfg = true)).
+Lemma cache_purge_run k id s :
+  exists c'', cache_purge k id s = (Ret tt, with_caches s c'') /\
+    ((c'' = caches s /\ c_present (cch s k) = false) \/
+     c'' = tset k (c_with (cch s k) (assoc_remove id (c_strong (cch s k))) (assoc_remove id (c_weak (cch s k)))
+                          (c_count (cch s k)) (c_offset (cch s k))) (caches s)).
 Proof.
-  unfold cache_expire, bind, gets. cbn [fst snd].
+  unfold cache_purge, bind, gets. cbn [fst snd].
   destruct (c_present (cch s k)) eqn:Ep; cbn [negb].
   2:{ exists (caches s). rewrite with_caches_self. split; [reflexivity|left; auto]. }
-  destruct (doCache cfg) eqn:Hdc; cbn [negb].
-  2:{ exists (caches s). rewrite with_caches_self. split; [reflexivity|left; auto]. }
-  eexists. split; [reflexivity|right; auto].
+  eexists. split; [reflexivity|right; reflexivity].
 Qed.
 
 Lemma so_destroy_spec roots s o :
   Inv cfg m roots s -> In (Some o) (slots s) ->
-  match so_destroy cfg o s with (_, s') => Inv cfg m roots s' /\ slots s' = slots s /\ pickles s' = pickles s end.
+  match so_destroy o s with (_, s') => Inv cfg m roots s' /\ slots s' = slots s /\ pickles s' = pickles s end.
 Proof.
   intros H Hh. pose proof (held_live roots s o Hh) as Hl.
   unfold so_destroy. unfold bind at 1, gets. cbn [fst snd].
@@ -556,7 +554,7 @@ Proof.
   set (s0 := with_log s l').
   assert (H0 : Inv cfg m roots s0) by (apply Inv_log; exact H).
   unfold bind at 1, upd_inst, modify. cbn [fst snd].
-  match goal with |- context [cache_expire cfg ?k ?id ?st] => destruct (cache_expire_run k id st) as (c'' & Ec & Hc'') end.
+  match goal with |- context [cache_purge ?k ?id ?st] => destruct (cache_purge_run k id st) as (c'' & Ec & Hc'') end.
   rewrite Ec. split; [|split; reflexivity].
   exact (Inv_destroy cfg m roots s0 o c'' H0 Hl Hc'').
 Qed.
@@ -614,7 +612,7 @@ Proof.
   - rewrite G1. reflexivity.
   - rewrite G1. reflexivity.
   - rewrite G1. split; [exact Hpk|]. split; [congruence|congruence].
-  - congruence.
+  - rewrite G1. reflexivity.
   - intros x Hx Hc Ek Ei Hrow. destruct (inv_L _ _ _ _ H1 x Hx) as (_ & _ & Rx). unfold ok_reg in Rx.
     rewrite Ek, Ei in Rx. apply (Hnone x (Rx Hc Hrow)).
     destruct Hx as [[]|Hx]; right; exact Hx.
